@@ -250,6 +250,14 @@ def work_sparse(shard):
         tl = [[] for _ in range(n)]
         for a, b in zip(path, path[1:]):
             tl[a].append((LABEL, b))
+        if out["calls"] % 5 == 0:
+            # history: a call that fails (a final index that is not a state) right before a well-formed call; what the failed call
+            # leaves behind must not reach the next one
+            try:
+                R.reverse_dfs([list(r) for r in tl], [fin, n + 3])
+            except Exception:                                # noqa: BLE001
+                pass
+            out["failed_calls_before_a_checked_call"] = out.get("failed_calls_before_a_checked_call", 0) + 1
         res = check_one(tl, [fin], table=False)
         out["calls"] += 1
         out["graphs"] += 1
@@ -317,7 +325,7 @@ def run(ctx):
                    "two predecessors or a parallel edge), plus every ladder/board graph",
            "spaces": spaces, "sparse_path_graphs_9_to_130_nodes": tot.get("sparse", 0),
            "failing_calls_interleaved": tot.get("failing_calls_interleaved", 0),
-           "graphs_also_run_with_shared_row_objects": tot.get("shared_row_graphs", 0), "ladder_graphs": tot.get("ladder", 0), "board_files": tot.get("boards", 0),
+           "graphs_also_run_with_shared_row_objects": tot.get("shared_row_graphs", 0), "ladder_graphs": tot.get("ladder", 0), "failed_calls_before_a_checked_call": tot.get("failed_calls_before_a_checked_call", 0), "board_files": tot.get("boards", 0),
            "exhaustive": not truncated, "samples": tot["samples"]}
     return {"coverage": cov, "violations": tot["violations"],
             "assumptions": ["oracle: breadth-first closure over reversed edges written independently in the harness",
